@@ -374,7 +374,7 @@ func runNotifier(c *Ctx) error {
 	}
 	n, g := 15000, 60
 	if c.Tier != "quick" {
-		n, g = 300000, 600
+		n, g = 120000, 600
 	}
 	if err := runGather(c, g); err != nil {
 		return err
